@@ -8,7 +8,7 @@ vars == <<kind, b, q>>
 Noise(qq, i, j, d) == IF ZeroOrd >= 1 /\ d = ZeroOrd + 1 THEN 0 ELSE ((qq * (i + 2 * j + 3 * d + 1) + i * j + d) % 5) - 2
 NoiseS(qq, i, j) == [d \in 1..Dg |-> RInt(Noise(qq, i, j, d))]
 \* ---- rational orthogonal matrices
-F(a, bb) == <<a, bb>>
+F(a, bb) == RFrac(a, bb)
 Q2 == << << <<ROne, RZero>>, <<RZero, ROne>> >>,
          << <<RZero, ROne>>, <<ROne, RZero>> >>,
          << <<F(3, 5), F(-4, 5)>>, <<F(4, 5), F(3, 5)>> >> >>
@@ -38,9 +38,12 @@ LamCat == << << <<1, 0, 0, 0>>, <<3, 1, 0, 0>>, <<6, -1, 2, 0>> >>,            \
 LamSeries(row) == [d \in 1..Dg |-> IF d <= Len(row) THEN RInt(row[d]) ELSE RZero]
 SingCat == << << <<3, 1, 0, 0>>, <<1, -1, 1, 0>> >>, << <<4, 0, 1, 0>>, <<2, 1, 0, 0>> >> >>
 
-Kinds == {"qr2", "qr3", "qr_tall", "qr_wide", "qr_full", "chol2", "chol3", "lu3", "eigh3", "svd32", "eig2"}
+\* the complex instance of this module (MC_CFactor, Gaussian-rational scalars) generates the complex eigenproblems only
+Complex == ~RIsReal(RCx(RZero, ROne))
+Kinds == IF Complex THEN {"eig2c", "eig2cc"}
+         ELSE {"qr2", "qr3", "qr_tall", "qr_wide", "qr_full", "chol2", "chol3", "lu3", "eigh3", "svd32", "eig2"}
 NB(k) == CASE k \in {"qr2", "qr3", "qr_tall", "qr_wide", "qr_full", "chol2", "chol3"} -> 3
-           [] k = "lu3" -> 6 [] k = "eigh3" -> 6 [] k = "svd32" -> 2 [] k = "eig2" -> 2
+           [] k = "lu3" -> 6 [] k = "eigh3" -> 6 [] k = "svd32" -> 2 [] k \in {"eig2", "eig2c", "eig2cc"} -> 2
 Init == kind = "none" /\ b = 0 /\ q = 0
 Next == \/ /\ kind = "none" /\ kind' \in Kinds /\ b' \in 1..NB(kind') /\ q' = 0
         \/ /\ kind # "none" /\ q = 0 /\ q' \in 1..Q /\ UNCHANGED <<kind, b>>
@@ -48,12 +51,12 @@ Ready == kind # "none" /\ q > 0
 
 \* ---- the instance: [A, factors...]
 Inst ==
-  CASE kind = "qr2" -> LET Qm == OrthoOf(2, b, q)  R == Upper(2, 2, q) IN [A |-> Dot(Qm, R), Q |-> Qm, R |-> R]
-    [] kind = "qr3" -> LET Qm == OrthoOf(3, b, q)  R == Upper(3, 3, q) IN [A |-> Dot(Qm, R), Q |-> Qm, R |-> R]
-    [] kind = "qr_tall" -> LET Qm == Cols(OrthoOf(3, b, q), 0, 2)  R == Upper(2, 2, q) IN [A |-> Dot(Qm, R), Q |-> Qm, R |-> R]
-    [] kind = "qr_wide" -> LET Qm == OrthoOf(2, b, q)  R == Upper(2, 3, q) IN [A |-> Dot(Qm, R), Q |-> Qm, R |-> R]
-    [] kind = "qr_full" -> LET Qf == OrthoOf(3, b, q)  R == Upper(2, 2, q)
-                               Rf == Mat(3, 2, LAMBDA i, j : IF i < 2 THEN Elt(R, <<i, j>>) ELSE SZero(Dg))
+  CASE kind = "qr2" -> LET Qm == OrthoOf(2, b, q)  Rm == Upper(2, 2, q) IN [A |-> Dot(Qm, Rm), Q |-> Qm, R |-> Rm]
+    [] kind = "qr3" -> LET Qm == OrthoOf(3, b, q)  Rm == Upper(3, 3, q) IN [A |-> Dot(Qm, Rm), Q |-> Qm, R |-> Rm]
+    [] kind = "qr_tall" -> LET Qm == Cols(OrthoOf(3, b, q), 0, 2)  Rm == Upper(2, 2, q) IN [A |-> Dot(Qm, Rm), Q |-> Qm, R |-> Rm]
+    [] kind = "qr_wide" -> LET Qm == OrthoOf(2, b, q)  Rm == Upper(2, 3, q) IN [A |-> Dot(Qm, Rm), Q |-> Qm, R |-> Rm]
+    [] kind = "qr_full" -> LET Qf == OrthoOf(3, b, q)  Rm == Upper(2, 2, q)
+                               Rf == Mat(3, 2, LAMBDA i, j : IF i < 2 THEN Elt(Rm, <<i, j>>) ELSE SZero(Dg))
                            IN [A |-> Dot(Qf, Rf), Q |-> Qf, R |-> Rf]
     [] kind = "chol2" -> LET L == LowerPos(2, q + b) IN [A |-> Dot(L, Transp(L)), L |-> L]
     [] kind = "chol3" -> LET L == LowerPos(3, q + b) IN [A |-> Dot(L, Transp(L)), L |-> L]
@@ -70,6 +73,17 @@ Inst ==
                             lam == << LamSeries(<<1, 1, 0, 0>>), LamSeries(<<3, -1, 0, 0>>) >>
                         IN [A |-> Dot(X, Dot(DiagM(lam), Inv(X))), X |-> X, lam |-> [shape |-> <<2>>, v |-> lam]]
 
+    \* complex eigenproblems: "eig2c" a real base matrix with a real spectrum and COMPLEX higher coefficients,
+    \*                        "eig2cc" a complex spectrum already at order 0
+    [] kind \in {"eig2c", "eig2cc"} ->
+         LET X == Mat(2, 2, LAMBDA i, j : [d \in 1..Dg |-> IF d = 1 THEN RInt(IF i = j \/ (i = 0 /\ b = 1) \/ (i = 1 /\ b = 2) THEN 1 ELSE 0)
+                                                         ELSE RCx(RInt(Noise(q, i, j, d)), RInt(Noise(q + 1, j, i, d + 1)))])
+             l1 == [d \in 1..Dg |-> IF d = 1 THEN (IF kind = "eig2c" THEN RInt(1) ELSE RCx(RInt(1), RInt(1)))
+                                    ELSE IF d = 2 THEN RCx(RInt(1), RInt(q)) ELSE RZero]
+             l2 == [d \in 1..Dg |-> IF d = 1 THEN (IF kind = "eig2c" THEN RInt(3) ELSE RCx(RInt(3), RInt(-1)))
+                                    ELSE IF d = 2 THEN RCx(RInt(-1), RInt(2)) ELSE RZero]
+             lam == <<l1, l2>>
+         IN [A |-> Dot(X, Dot(DiagM(lam), Inv(X))), X |-> X, lam |-> [shape |-> <<2>>, v |-> lam]]
 \* ---- M: the generators produce what they claim (exact identities mod t^D)
 GenOK == Ready => LET I == TLCEval(Inst) IN
   CASE kind \in {"qr2", "qr3", "qr_wide"} -> IsOrtho(I.Q) /\ IsUpper(I.R)
@@ -80,6 +94,9 @@ GenOK == Ready => LET I == TLCEval(Inst) IN
     [] kind = "eigh3" -> IsOrtho(I.Q) /\ Transp(I.A) = I.A /\ Dot(I.A, I.Q) = Dot(I.Q, DiagM(I.lam.v))
     [] kind = "svd32" -> IsOrtho(I.U) /\ IsOrtho(I.V)
     [] kind = "eig2" -> Dot(I.A, I.X) = Dot(I.X, DiagM(I.lam.v))
+    [] kind \in {"eig2c", "eig2cc"} -> /\ Dot(I.A, I.X) = Dot(I.X, DiagM(I.lam.v))
+                                       /\ (kind = "eig2c") = (\A k \in 1..4 : RIsReal(I.A.v[k][1]))       \* real base matrix iff "eig2c"
+                                       /\ \E k \in 1..4 : ~RIsReal(I.A.v[k][2])                          \* complex first-order coefficient
 SkewOK == Ready => IsSkew(Skew(3, q)) /\ IsSkew(Skew(2, q))
 EmitState == (Emit /\ Ready) => PrintT(ToJson([kind |-> kind, b |-> b, q |-> q, inst |-> Inst]))
 =============================================================================
